@@ -1,7 +1,9 @@
 package main
 
 import (
+	"crypto/sha256"
 	"fmt"
+	"go/ast"
 	"go/token"
 	"go/types"
 	"strings"
@@ -925,7 +927,14 @@ func (b *Body) boundary(where string, reach *T, st State, pos token.Pos) {
 	ft := b.ft
 	env := ft.fnEnv(b, st)
 	env.at = b.curBlock
-	n := ft.count("boundary@" + where)
+	n := fmt.Sprint(ft.count("boundary@" + where))
+	if where == "return" {
+		// returns are named by their statement text (hash) and their position among the returns with
+		// the same text, in source order: adding or removing an unrelated return does not rename them
+		if id := ft.returnID(pos); id != "" {
+			n = id
+		}
+	}
 	for _, cl := range ft.con.Boundary {
 		g, err := env.EvalBool(cl.Expr)
 		if err != nil {
@@ -936,7 +945,7 @@ func (b *Body) boundary(where string, reach *T, st State, pos token.Pos) {
 		if cl.Name != "" {
 			name += "@" + cl.Name
 		}
-		name += fmt.Sprintf("@%s#%d", where, n)
+		name += fmt.Sprintf("@%s#%s", where, n)
 		ft.oblige(&Obligation{Name: name, Kind: "boundary", Tags: ft.clauseTags(cl), Guard: reach, Goal: g, Src: cl.Src, Pos: ft.pos(pos)})
 	}
 }
@@ -1027,4 +1036,38 @@ func (ft *FT) adoptsOrphanLoop(fn *ssa.Function) bool {
 		}
 	}
 	return false
+}
+
+// returnID names a return statement of the function under verification.
+func (ft *FT) returnID(pos token.Pos) string {
+	if ft.retIDs == nil {
+		ft.retIDs = map[token.Pos]string{}
+		var body *ast.BlockStmt
+		switch s := ft.fn.Syntax().(type) {
+		case *ast.FuncDecl:
+			body = s.Body
+		case *ast.FuncLit:
+			body = s.Body
+		}
+		if body != nil {
+			seen := map[string]int{}
+			ast.Inspect(body, func(n ast.Node) bool {
+				switch r := n.(type) {
+				case *ast.FuncLit:
+					return false
+				case *ast.ReturnStmt:
+					var parts []string
+					for _, x := range r.Results {
+						parts = append(parts, types.ExprString(x))
+					}
+					txt := strings.Join(parts, ", ")
+					h := sha256.Sum256([]byte(txt))
+					seen[txt]++
+					ft.retIDs[r.Pos()] = fmt.Sprintf("%x.%d", h[:2], seen[txt])
+				}
+				return true
+			})
+		}
+	}
+	return ft.retIDs[pos]
 }
